@@ -43,7 +43,7 @@ def static_cases(ctx):
             if r < 0.3:
                 keys.append(rng.choice(edges))
             elif r < 0.45:
-                keys.append(rng.choice([edges[0] - 1.5, edges[-1] + 0.5, edges[-1] + 7]))
+                keys.append(rng.choice([edges[0] - 1.5, edges[-1] + 0.5, edges[-1] + 7, float('inf'), float('-inf')]))   # ±inf: beyond every edge, counted there
             else:
                 keys.append(rng.randint(-24, 24) / 4)
         if rng.random() < 0.15:
@@ -71,6 +71,7 @@ def static_cases(ctx):
         # bins of accumulators with nested / mutable members too: every bin must own its state
         cls = rng.choice(['Counter', 'Mean', 'CacheAccumulator', 'Variance', 'Maximum', 'CacheMaximum', 'RunningVariance'])
         kw = {'length': 3} if cls in ('CacheAccumulator', 'CacheMaximum') else ({'lifetime': 3} if cls == 'RunningVariance' else {})
+        obs_as_lists = rng.random() < 0.3
         passed_kw = dict(kw)
         bs = A.BinSorter(edges, getattr(A, cls), kwargs=passed_kw, key=lambda o: o[0], datakey=lambda o: o[1])
         edited = bool(kw) and rng.random() < 0.6
@@ -81,7 +82,7 @@ def static_cases(ctx):
         # pre-aggregated partial results as data: an element that is itself an accumulator of the bin's class is MERGED into the bin
         partials = cls in ('Counter', 'Mean') and rng.random() < 0.3
         xedges = [float(e) for e in edges] if narrow else edges          # exact values of the edges (as Python numbers)
-        case = dict(static=True, edges=[e for e in xedges], keys=[float(k) if narrow else k for k in keys], cls=cls, narrow_side=narrow, partial_results_as_data=partials, kwargs_dict_edited_after_construction=edited)
+        case = dict(static=True, edges=[e for e in xedges], keys=[float(k) if narrow else k for k in keys], cls=cls, narrow_side=narrow, partial_results_as_data=partials, kwargs_dict_edited_after_construction=edited, observations_are_lists=obs_as_lists)
         edges_for_oracle = xedges
         nb = len(edges) - 1
         bins = [[] for _ in range(nb)]
@@ -92,7 +93,7 @@ def static_cases(ctx):
             d = float(i)
             if partials and i % 3 == 1:
                 d = A.Counter(2 + i % 3) if cls == 'Counter' else A.Mean(value=float(i), n=2 + i % 3)
-            bs.accumulate((k, d))
+            bs.accumulate([k, d] if obs_as_lists else (k, d))      # an observation may be a list as well as a tuple: ONE observation
             kx = float(k) if narrow else k
             j = None
             for b in range(nb):
@@ -134,6 +135,9 @@ def static_cases(ctx):
             ctx.count('partial_results_as_data')
             continue            # (the model's bins hold plain data)
         edges, keys = edges_for_oracle, kxs
+        if any(isinstance(k, float) and k in (float('inf'), float('-inf')) for k in keys):
+            ctx.count('static_cases_with_infinite_keys')
+            continue            # (the model's rationals have no infinity; the group-by oracle above has judged the case)
         lines.append('p2q.binsort %s | %s' % (' '.join(fmtq(e) for e in edges), ' '.join(fmtq(k) for k in keys)))
         metas.append((case, [len(b) for b in bins], under, over, bins))
     mout = core.run_driver(lines)
